@@ -635,6 +635,26 @@ func (g *gsc) gatedAdd(op Op, name string) {
 	}
 }
 
+// opStr renders an operation for messages: "gadd ctx5 @call-out 1 {end ctx1; size}".
+func opStr(op Op) string {
+	var b strings.Builder
+	b.WriteString(op.K)
+	for _, id := range op.C {
+		fmt.Fprintf(&b, " ctx%d", id)
+	}
+	if op.K == "gadd" {
+		fmt.Fprintf(&b, " @call-out %d {", op.Nth+1)
+		for i, in := range op.In {
+			if i > 0 {
+				b.WriteString("; ")
+			}
+			b.WriteString(opStr(in))
+		}
+		b.WriteString("}")
+	}
+	return b.String()
+}
+
 func runGated(c *Case) *outcome {
 	out := &outcome{}
 	g := &gsc{c: c, out: out, ctxs: map[int]*gpair{}, member: map[int]bool{}, why: map[int]string{}, offered: map[int]bool{}, traceOK: true}
@@ -760,7 +780,7 @@ func runGated(c *Case) *outcome {
 		if g.broken {
 			break
 		}
-		name := fmt.Sprintf("op %d (%s %v nth=%d in=%v)", i, op.K, op.C, op.Nth, op.In)
+		name := fmt.Sprintf("op %d (%s)", i, opStr(op))
 		switch op.K {
 		case "end":
 			for _, id := range op.C {
